@@ -154,6 +154,30 @@ Proof.
     rewrite Hc, (check_cow_valid crc a Ha Hva). exists a, (mkDisk a (Some a)). auto 10.
 Qed.
 
+(* a read-only reader of a recoverable state returns a or b as well; it leaves the state
+   recoverable (it only removes a backup next to a valid block) and does not repair a torn block *)
+Lemma read_rec_ro crc fx a b d : Rec crc a b d -> detects crc a b ->
+  exists v d', read_restore_ro crc fx d = (d', ROk v) /\ (v = a \/ v = b) /\ valid crc v = true /\
+               Rec crc a b d' /\ (valid crc (blk d) = false -> d' = d /\ cow d = Some v).
+Proof.
+  intros HR Hdet. pose proof (Rec_length _ _ _ _ HR) as Hlen. pose proof HR as HR0.
+  destruct HR as (Ha & Hb & Hva & Hvb & Hcase).
+  unfold read_restore_ro. rewrite Hlen, Nat.eqb_refl. cbn [negb].
+  destruct (valid crc (blk d)) eqn:Hv.
+  - assert (Hab : blk d = a \/ blk d = b) by (destruct Hcase as [E|[E|[Hm _]]]; auto).
+    exists (blk d), (mkDisk (blk d) None). split; [reflexivity|]. split; [exact Hab|]. split; [exact Hv|].
+    split; [|discriminate]. unfold Rec. cbn [blk cow]. repeat (split; [assumption|]).
+    destruct Hab; auto.
+  - destruct Hcase as [E|[E|[Hm Hc]]]; [rewrite E in Hv; congruence|rewrite E in Hv; congruence|].
+    rewrite Hc, (check_cow_valid crc a Ha Hva). exists a, d. auto 10.
+Qed.
+
+Lemma Rec_weaken crc a b d : Rec crc a a d -> length b = BSZ -> valid crc b = true -> Rec crc a b d.
+Proof.
+  intros (Ha & _ & Hva & _ & Hcase) Hb Hvb. unfold Rec. repeat (split; [assumption|]).
+  destruct Hcase as [E|[E|[Hm _]]]; auto. left. now apply mixture_same.
+Qed.
+
 (* dying inside the restore write keeps the state recoverable between the same two blocks *)
 Lemma restore_crash_rec crc a b d k : Rec crc a b d -> Rec crc a b (restore_crash crc d k).
 Proof.
@@ -183,6 +207,25 @@ Proof.
   - split; [|discriminate]. unfold Rec. cbn [blk cow]. repeat (split; [assumption|]).
     right. right. rewrite Hblk. split; [|reflexivity]. apply mixture_mix_new. lia.
   - split; [|reflexivity]. unfold Rec. cbn [blk cow]. auto 10.
+Qed.
+
+(* every crash point of an update of an intact block leaves a state recoverable between the old
+   block and the block being written *)
+Lemma crash_state_rec_stable crc fx old d off data p :
+  length old = BSZ -> valid crc old = true -> blk d = old -> slot_ok off data ->
+  Rec crc old (new_block crc old off data) (crash_state crc fx d off data p).
+Proof.
+  intros Hl Hv Hb Hslot. pose proof (Rec_stable crc old d Hl Hv Hb) as HR.
+  assert (Hnl : length (new_block crc old off data) = BSZ) by now apply length_new_block.
+  pose proof (valid_new_block crc old off data) as Hnv.
+  destruct p as [k|k|k|].
+  - cbn [crash_state]. apply Rec_weaken; auto. now apply restore_crash_rec.
+  - destruct (crash_rec crc fx old old d off data (WP_cow k) HR (detects_same crc old) Hslot) as (v & Hvv & HR' & _);
+      [discriminate|]. assert (v = old) by (destruct Hvv; assumption). now subst v.
+  - destruct (crash_rec crc fx old old d off data (WP_block k) HR (detects_same crc old) Hslot) as (v & Hvv & HR' & _);
+      [discriminate|]. assert (v = old) by (destruct Hvv; assumption). now subst v.
+  - destruct (crash_rec crc fx old old d off data WP_done HR (detects_same crc old) Hslot) as (v & Hvv & HR' & _);
+      [discriminate|]. assert (v = old) by (destruct Hvv; assumption). now subst v.
 Qed.
 
 (* C22, crash clause: an update of a recoverable block dies at any point (or completes); the next
